@@ -128,6 +128,7 @@ func (s *Syncer) SendOnce(ctx context.Context, env *lmdb.Env) (txnID header.TxnI
 		return 0, err
 	}
 	tDumped := time.Now()
+	verifYield(s, "send.afterTxn")
 
 	// If no actual changes were made, LMDB will not record the transaction
 	// and reuse the ID the next time, so we need to adjust the txnID we return.
@@ -260,6 +261,7 @@ func (s *Syncer) SendOnce(ctx context.Context, env *lmdb.Env) (txnID header.TxnI
 		s.lastSnapshotTime = time.Now()
 	}
 
+	verifYield(s, "send.stored")
 	// Tell the cleaner which snapshots made by other instances have been
 	// incorporated in the last snapshot that we sent.
 	s.cleaner.SetCommitted(s.lastByInstance)
